@@ -16,7 +16,7 @@ from analysis.mir import leaves, calls_in, show, walk, short, PLUMBING
 from rules import dir_shared as ds, verify_shared as vs, c01, c02
 
 EXPLANATION = __doc__
-FLOOR = 24
+FLOOR = 40
 GMV = 'akd_core::utils::get_marker_versions'
 
 
